@@ -163,6 +163,14 @@ queue_harness! {
 // @oracle S1: whenever the request's future completes, every entry appended before it was handed to the stream or displaced, and flush_stream ran after the last of them; S2: will_progress_on_drained_queue() holds exactly while a request is pending and the next Drained iteration completes it; L1: the request is complete after at most `capacity` further popped entries or the first Drained iteration, even if producers never stop
 // @stubs mpsc::Receiver::try_recv (model queue in verif_hooks), tracing x4, Instant::now, alloc::fmt::format, Parker::park_deadline, Unparker::unpark
 // @outside the run loop's park/deadline glue; cross-thread happens-before between append and request (the ghost model orders them); 'completes immediately after shutdown' (needs mpsc::Sender::send: Kani ICE)
+// Kani's value extraction for this harness needs more than 48 GB (measured three times), so a counterexample is
+// replayed natively with these canonical schedules instead (driver: a probe only counts if its native panic message is
+// an assertion the solver refuted). Order of the harness' kani::any() calls: produce n, r1_now, produce n, then per
+// writer step: drained, [k if not drained], [late? and its produce n while no late request exists], produce n before
+// the next step.
+// @probevals late_request_with_two_appends_after_drained_then_deadline_cut_drain 1:0,1:0,1:0,1:1,1:1,1:2,1:0,1:0,8:1,1:0,1:1
+// @probevals request_then_two_appends_hit_deadline_then_drained 1:2,1:1,1:1,1:0,8:1,1:0,1:1,1:1,1:0,1:0,1:1,1:0
+// @probevals request_with_full_queue_and_late_request 1:2,1:1,1:0,1:0,8:2,1:1,1:2,1:0,1:1,1:0,1:1
 #[kani::unwind(4)]
 pub fn tracker_one_request() {
     let _ = scenario::<3, false>();
